@@ -6,6 +6,7 @@ import Frp.Engines.Release
 import Frp.Engines.GrpRel
 import Frp.Engines.Udp
 import Frp.Engines.Conf
+import Frp.Engines.ConfCmd
 import Frp.Engines.Nat
 import Frp.Engines.NatPunch
 import Frp.Engines.NatPx
@@ -43,6 +44,7 @@ def all : List (String × Engine) :=
   , ("grprel", grprel)
   , ("udp", udp)
   , ("conf", conf)
+  , ("confcmd", confcmd)
   , ("nat", nat)
   , ("punch", punch)
   , ("natpx", natpx)
